@@ -17,7 +17,7 @@ def main(tier, t0):
     tasks = stage_check.tasks_for("C18", tier, scenario="history", sizes=_sizes, structure_filter=_structs(tier))
     tasks += stage_check.tasks_for("C18", tier, scenario="repeat", sizes=_sizes, structure_filter=_structs(tier))
     tasks += [("harness.api", "run_history", "api/" + n, dict(name=n)) for n in ("examples-repeat", "file-vs-string", "file-vs-string-10000-lines", "shared-namespaces-dict",
-                                                                                 "format-after-format")]
+                                                                                 "format-after-format", "min-iri-repeat")]
     return stage_check.main("C18", tier, t0, tasks=tasks,
                             extra_meta=dict(functions_encoded=["shexer.shaper.Shaper.shex_graph (memoised stages _target_classes_dict/_profile/_shape_list)", "Shaper._launch_class_shexer"],
                                             assumptions=["obligations api/* are concrete regression replays (call sequences of length <= 3, real files, > 10 000 output lines): they are NOT solver-decided; "
